@@ -215,6 +215,7 @@ func (fv *FV) typeInv(term string, t types.Type, depth int) string {
 	case *types.Slice:
 		parts := []string{
 			fmt.Sprintf("(>= (sq.len %s) 0)", term),
+			fmt.Sprintf("(<= (sq.len %s) 9223372036854775807)", term),
 			fmt.Sprintf("(>= (sq.ref %s) 0)", term),
 			fmt.Sprintf("(=> (= (sq.ref %s) 0) (= (sq.len %s) 0))", term, term),
 		}
@@ -248,6 +249,25 @@ func (fv *FV) typeInv(term string, t types.Type, depth int) string {
 		}
 	}
 	return "true"
+}
+
+// lemmaInv: the weaker invariant used for lemma parameters, both when the
+// lemma is proved and when its statement is used: no element-wise ranges
+// (a lemma that needs them states them as requires).
+func (fv *FV) lemmaInv(term string, t types.Type) string {
+	switch tt := types.Unalias(t).Underlying().(type) {
+	case *types.Slice:
+		return fmt.Sprintf("(and (>= (sq.len %s) 0) (>= (sq.ref %s) 0))", term, term)
+	case *types.Map:
+		_ = tt
+		return fmt.Sprintf("(>= (mp.ref %s) 0)", term)
+	case *types.Basic:
+		// signed integer parameters of lemmas are mathematical integers
+		if tt.Info()&types.IsInteger != 0 && tt.Info()&types.IsUnsigned == 0 {
+			return "true"
+		}
+	}
+	return fv.typeInv(term, t, 0)
 }
 
 func (fv *FV) structInv(term string, nt *types.Named, depth int) string {
